@@ -326,7 +326,7 @@ class ProgGen:
             return "%s[(%s) %% %dU]" % (v.name, idx, v.n), v.t
         if v.kind == "ptr":
             self.feat("ptr-write")
-            return "*%s" % v.name, v.t
+            return "(*%s)" % v.name, v.t
         f = r.choice(v.fields.fields)
         fname, ft, bw, alen = f
         self.feat("bitfield-write" if bw else "member-write")
@@ -411,6 +411,8 @@ class ProgGen:
             rt = ctx["ret"]
             val = "" if rt is None else " " + self.expr(rt, env, 1)
             dead = self.out_stmt(env, 0)[0] if r.random() < 0.5 else ""
+            if r.random() < 0.5:
+                return ["%sif (%s) { return%s; %s } else { %s }" % (pad, c, val, dead, self.out_stmt(env, 0)[0])]
             return ["%sif (%s) { return%s; %s }" % (pad, c, val, dead)]
         if self.opt["gotos"] and not ctx.get("nogoto"):
             self.feat("goto")
@@ -513,6 +515,10 @@ class ProgGen:
         n = r.randint(0, 5)
         body_env = env + [Var(i, self.type_named("int"), const=True)]
         body = self.stmts(body_env, depth - 1, r.randint(1, 3), ind + 1, dict(ctx, inloop=True))
+        if r.random() < 0.15:
+            # body ends in an unconditional jump (the back edge must not override it)
+            self.feat("loop-ends-in-jump")
+            body.append("\t" * (ind + 1) + r.choice(["break;", "continue;"]))
         k = r.random()
         if k < 0.5:
             self.feat("for")
